@@ -40,6 +40,9 @@ def decode_variants(valid, rnd):
         if i == 0:
             head += len(packet).to_bytes(4, "little") + (zlib.crc32(packet) & 0xFFFFFFFF).to_bytes(4, "little")
         frags.append(head + chunk)
+    # the fragments arrive in any order (size and CRC travel in fragment 0 only, wherever it arrives)
+    if n > 1 and rnd.random() < 0.6:
+        rnd.shuffle(frags)
     c.script[0] = ds[:at] + frags + ds[at + 1:]
     c.opts = c.opts + [f"bz={z.hex()}:{packet.hex()}"]
     v = copy.copy(valid)
